@@ -195,6 +195,8 @@ def report_counterexample(ctx, label, ep_ops, kind, known_open, orig=None):
 
 
 def do_replay(prop, path):
+    if getattr(prop, 'replay', None):        # properties without op lines bring their own replay (C18)
+        return prop.replay(prop, path)
     with open(path) as f:
         rp = json.load(f)
     with build_lock():
@@ -381,6 +383,7 @@ def main(argv):
         'assumptions': prop.assumptions,
         'wall_s': round(wall, 2), 'violations': len(ctx.violations),
     }
+    ev['coverage'].update(getattr(ctx, 'coverage_extra', None) or getattr(prop, 'coverage_extra', None) or {})
     write_evidence(prop.pid, ev)
 
     for l in ctx.known_lines:
